@@ -18,6 +18,7 @@ Definition gen_tables : tables :=
 """
 
 RB = [None, "NONE", "XZ", "XYZ", "CHSH"]
+RECV_MEASURE_TAKES_BASES = [False]   # set in run() from inspect.signature(EPRSocket.recv_measure)
 BASES = ["X", "Y", "Z", "MX", "MY", "MZ"]
 UNITS = ["MICRO_SECONDS", "MILLI_SECONDS", "SECONDS"]
 
@@ -75,6 +76,13 @@ def gen_case(rng, call, forced=None):
             kw["random_basis_local"] = r
     if call in ("recv_keep", "recv_measure", "recv_rsp") and rng.random() < 0.4:
         kw["expect_phi_plus"] = rng.random() < 0.5
+    if call == "recv_measure" and rng.random() < 0.5 and RECV_MEASURE_TAKES_BASES[0]:
+        # the receiver states the bases of the matching create_measure (the link layer does not report them)
+        if rng.random() < 0.6:
+            b = rng.choice(BASES)
+            kw.update(basis_local=b, basis_remote=b)
+        else:
+            kw.update(rotations_local=rot(rng), rotations_remote=rot(rng))
     if call in ("create_keep", "recv_keep", "create_rsp", "recv_rsp") and rng.random() < 0.12:
         kw["min_fidelity_all_at_end"] = rng.choice([50, 80, 100])
         kw["max_tries"] = rng.randint(1, 5)
@@ -382,13 +390,80 @@ def controller_cases(ctx, ns, n):
     return out, metas
 
 
-def write_case_files(ctx, rcases, ccases, hcases):
+def gen_retry_case(ns, rng):
+    """a min_fidelity_all_at_end operation whose first attempts are too slow: the link layer answers each attempt"""
+    call = rng.choice(["create_keep", "recv_keep", "create_rsp", "recv_rsp"])
+    n = rng.randint(1, 3)
+    fid = rng.choice([50, 80, 100])
+    bound = 100000 - fid * 900          # NVEprCompiler.get_max_time_for_fidelity
+    tries = rng.randint(1, 3)
+    accepted_at = rng.choice(list(range(1, tries + 1)) + [None])   # None: every attempt is rejected
+    nattempts = accepted_at or tries
+    own = rng.randint(0, 9)
+    case = dict(call=call, kw=dict(number=n, min_fidelity_all_at_end=fid, max_tries=tries),
+                node=rng.choice([x for x in range(0, 12) if x != own]), sock=rng.randint(0, 7), own_node=own,
+                remote_sock=rng.randint(0, 7))
+    gi = 8 if ec.resp_is_m(call) else 7
+    attempts = []
+    for a in range(1, nattempts + 1):
+        rs = ec.gen_responses(ns, rng, case)
+        ok_ = (a == accepted_at)
+        for i, r in enumerate(rs):
+            r[gi] = rng.randint(0, 99999)                # other pairs' durations do not matter
+            if not ec.resp_is_m(call):
+                r[2] = 100 * a + 50 + i                  # physical ids distinct across attempts
+        rs[-1][gi] = rng.randint(0, bound - 1000) if ok_ else rng.randint(bound + 1000, bound + 50000)
+        attempts.append(rs)
+    case.update(attempts=attempts, resp=[r for rs in attempts for r in rs], accepted_at=accepted_at, bound=bound,
+                resp_format="native")
+    return case
+
+
+def run_retry_cases(ctx, ns, cases, rtcases, meta):
+    for case in cases:
+        res = ec.run_case(ctx.repo, ns, case)
+        ctx.note_case(("retry", case["call"], json.dumps(case["kw"], sort_keys=True), case["accepted_at"], case["node"]),
+                      nontrivial=len(case["attempts"]) > 1)
+        tag = "retry:" + ("accepted at attempt %d" % case["accepted_at"] if case["accepted_at"] else "all tries rejected")
+        meta["dist"][tag] = meta["dist"].get(tag, 0) + 1
+        replay = dict(case={k: case[k] for k in ("call", "kw", "node", "sock", "own_node", "remote_sock", "attempts",
+                                                 "accepted_at", "bound")})
+        fails = []
+        n_att = len(case["attempts"])
+        if case["accepted_at"]:
+            if res.error:
+                fails.append(("a min-fidelity operation whose last attempt is within the bound raised", res.error))
+            else:
+                last = dict(case, resp=case["attempts"][-1])
+                bad = ec.check_handles(ns, last, res.handles)
+                if bad:
+                    fails.append(("after a retry a result handle does not show the accepted attempt's response", bad[:5]))
+        if case["call"] in ec.CREATE_CALLS and len(res.pipe.requests) != n_att:
+            fails.append((f"{len(res.pipe.requests)} requests reached the network stack for {n_att} attempts", ""))
+        if res.pipe.responses:
+            fails.append((f"{len(res.pipe.responses)} link-layer responses were never waited for", ""))
+        for what, detail in fails:
+            replay["observed"] = detail
+            ctx.violation(what, replay, key=None)
+            break
+        if res.results_array is not None and not fails:
+            undef = case["call"] in ("create_keep", "recv_keep")
+            rtcases.append(f"mkRT {b(ec.resp_is_m(case['call']))} {b(undef)} {case['kw']['number']}%nat "
+                           f"{case['kw']['max_tries']}%nat {z(case['bound'])} "
+                           f"{lst(lst(lst(z(v) for v in r) for r in rs) for rs in case['attempts'])} "
+                           f"(Some {lst(cq_oz(v) for v in res.results_array)})")
+            meta["tmeta"].append(replay)
+
+
+def write_case_files(ctx, rcases, ccases, hcases, rtcases=()):
     files = {}
     shard = 250
     for kind, items, chk in (("r", rcases, "check_rcase gen_tables"), ("c", ccases, "check_ccase gen_tables"),
                              ("h", hcases, "check_hcase gen_EXEC_OK_FIELDS gen_okk_fields gen_okm_fields "
-                                           "gen_keep_stride gen_measure_stride")):
-        typ = {"r": "rcase", "c": "ccase", "h": "hcase"}[kind]
+                                           "gen_keep_stride gen_measure_stride"),
+                             ("t", list(rtcases), "check_rtcase gen_EXEC_OK_FIELDS gen_okk_fields gen_okm_fields "
+                                                  "gen_keep_stride gen_measure_stride")):
+        typ = {"r": "rcase", "c": "ccase", "h": "hcase", "t": "rtcase"}[kind]
         for k in range(0, max(1, len(items)), shard):
             fn = f"cases_{kind}_{k // shard}.v"
             with open(os.path.join(ctx.build, fn), "w") as f:
@@ -418,6 +493,11 @@ def run(ctx):
     ok, err = ctx.gen("epr_tables.py", "Gen_Epr.v")
     ctx.gen_obligation("translator epr_tables.py understands the source", ok, err.strip()[-400:])
     ns = ec.load(ctx.repo)
+    import inspect
+    from netqasm.sdk.epr_socket import EPRSocket
+    RECV_MEASURE_TAKES_BASES[0] = {"basis_local", "basis_remote", "rotations_local", "rotations_remote"} <= set(
+        inspect.signature(EPRSocket.recv_measure).parameters)
+    ctx.coverage["recv_measure_takes_bases"] = RECV_MEASURE_TAKES_BASES[0]
     if ok:
         r = ctx.coqc("Gen_Epr.v")
         ctx.gen_obligation("Gen_Epr.v type-checks", r.ok, r.err[-300:])
@@ -464,6 +544,10 @@ def run(ctx):
     run_stream(ctx, ns, cases, "generated", rcases, hcases, meta)
     scens = [gen_scenario(ns, rng) for _ in range(60 if quick else 1200)]
     run_scenarios(ctx, ns, scens, meta)
+    rtcases = []
+    meta["tmeta"] = []
+    retry = [gen_retry_case(ns, rng) for _ in range(60 if quick else 1200)]
+    run_retry_cases(ctx, ns, retry, rtcases, meta)
     ctx.log(f"{len(cases)} pipeline cases + {len(scens)} multi-socket programs in {time.time() - t0:.1f}s")
     ccases, cmeta = controller_cases(ctx, ns, 200 if quick else 3000)
     ctx.samples = [strip(c) for c in cases[:2] + cases[len(cases) // 2:len(cases) // 2 + 2] + cases[-2:]]
@@ -473,7 +557,7 @@ def run(ctx):
     # correspondence model <-> implementation
     nmis, first = 0, None
     if ok and os.path.exists(os.path.join(ctx.build, "Gen_Epr.vo")):
-        files = write_case_files(ctx, rcases, ccases, hcases)
+        files = write_case_files(ctx, rcases, ccases, hcases, rtcases)
         res = ctx.run_case_files(list(files))
         for fn, r in res.items():
             kind, k = files[fn]
@@ -486,10 +570,11 @@ def run(ctx):
                 continue
             for i in fl[0]:
                 nmis += 1
-                m = {"r": meta["rmeta"], "c": cmeta, "h": meta["hmeta"]}[kind][k + i]
+                m = {"r": meta["rmeta"], "c": cmeta, "h": meta["hmeta"], "t": meta["tmeta"]}[kind][k + i]
                 first = first or (kind, m)
         ctx.coverage["model_impl_mismatches"] = nmis
-        ctx.coverage["correspondence_cases"] = dict(calls=len(rcases), controller=len(ccases), results=len(hcases))
+        ctx.coverage["correspondence_cases"] = dict(calls=len(rcases), controller=len(ccases), results=len(hcases),
+                                                    retry_loops=len(rtcases))
     if nmis and not ctx.violations:
         ctx.broken.append(f"correspondence EprBoundary (serialize/controller/qlink_accepts/results_array) vs "
                           f"serialize_request/_get_create_request/request_to_qlink_1_0/_store_ent_info: {nmis} "
